@@ -147,12 +147,15 @@ def run_check(prop: str, tier: str, seed: int) -> int:
         return 2
     try:
         regenerate(ctx, getattr(mod, "GENERATORS", []))
-        coq_obligations(ctx, getattr(mod, "PROPS_FILES", [f"Props/{prop}.v"]))
+        files = getattr(mod, "PROPS_FILES", None) or sorted(
+            str(p.relative_to(COQ)) for p in (COQ / "Props").glob(f"{prop}*.v"))
+        coq_obligations(ctx, files)
         mod.run(ctx)
         # proof obligations or ties that broke without a located failing input
         located = {v.detail.get("broken") for v in ctx.violations}
+        targets = {v.target for v in ctx.violations if v.kind == "failing-input"}
         for o in broken_obligations(ctx):
-            if o["name"] in located or o.get("located"):
+            if o["name"] in located or o.get("located") or (set(o["name"].split(":")) & targets):
                 continue
             ctx.violation("no-failing-input-found", o["file"] or o["name"],
                           {"broken": o["name"], "detail": o["detail"],
